@@ -615,23 +615,31 @@ theorem options_exports {t t' : TaskV} {upd : Dict Val} (h : t.options upd = .ok
   · simp at h
   · exact h
 
-theorem applyOp_wf {t t' : TaskV} {op : TaskOp} (hb : WF t.base) (ho : WF t.over) (h : applyOp t op = .ok t') :
-    WF t'.base ∧ WF t'.over := by
+theorem applyOp_wf {reg t t' : TaskV} {op : TaskOp} (hr : WF reg.base) (hb : WF t.base) (ho : WF t.over)
+    (h : applyOp reg t op = .ok t') : WF t'.base ∧ WF t'.over := by
   cases op with
   | options u => exact validate_wf (t := ⟨t.base, dmerge t.over u, []⟩) hb (wf_dmerge _ _ ho) h
   | exportOptions u =>
     unfold applyOp TaskV.exportOptions at h
     exact validate_wf (t := ⟨t.base, dmerge t.over u, _⟩) hb (wf_dmerge _ _ ho) h
+  | roundtrip =>
+    unfold applyOp TaskV.roundtrip at h
+    exact validate_wf (t := ⟨reg.base, t.over, t.exports⟩) hr ho h
 
-theorem applyOps_wf {t t' : TaskV} {ops : List TaskOp} (hb : WF t.base) (ho : WF t.over) (h : applyOps t ops = .ok t') :
-    WF t'.base ∧ WF t'.over := by
+theorem applyOps_wf {reg t t' : TaskV} {ops : List TaskOp} (hr : WF reg.base) (hb : WF t.base) (ho : WF t.over)
+    (h : applyOps reg t ops = .ok t') : WF t'.base ∧ WF t'.over := by
   induction ops generalizing t with
   | nil => cases h; exact ⟨hb, ho⟩
   | cons op ops ih =>
     unfold applyOps at h
     obtain ⟨t1, h1, h2⟩ := bind_ok h
-    have := applyOp_wf hb ho h1
+    have := applyOp_wf hr hb ho h1
     exact ih this.1 this.2 h2
+
+theorem roundtrip_exports {reg t t' : TaskV} (h : t.roundtrip reg = .ok t') :
+    (∀ n ∈ t.exports, n ∈ t'.exports) ∧ (∀ n ∈ t'.exports, n ∈ t.exports ∨ n = "prov") := by
+  unfold TaskV.roundtrip at h
+  exact validate_exports (t := ⟨reg.base, t.over, t.exports⟩) h
 
 theorem mkTask_wf {opts defExport : Dict Val} {t : TaskV} (ho : WF opts) (h : mkTask opts defExport = .ok t) :
     WF t.base ∧ WF t.over := by
@@ -639,5 +647,118 @@ theorem mkTask_wf {opts defExport : Dict Val} {t : TaskV} (ho : WF opts) (h : mk
   split at h
   · exact validate_wf (t := ⟨opts, [], []⟩) ho (by simp [WF, keys]) h
   · exact validate_wf (t := ⟨dmerge opts defExport, [], keys defExport⟩) (wf_dmerge _ _ ho) (by simp [WF, keys]) h
+
+/-! ### re-validation is idempotent (pickle round trip of a task value) -/
+
+theorem dset_same (k : String) (v : α) (d : Dict α) (h : d.lookup k = some v) : dset k v d = d := by
+  induction d with
+  | nil => simp at h
+  | cons kv t ih =>
+    obtain ⟨k0, v0⟩ := kv
+    rw [lookup_cons_ite] at h
+    simp only [dset]
+    by_cases hk : k = k0
+    · subst hk; simp at h; subst h; simp
+    · have : ¬ k0 = k := fun e => hk e.symm
+      simp only [this, if_false]
+      rw [ih (by simpa [hk] using h)]
+
+theorem coerceEnum_idem {cls : String} {members : List String} {v e : Val} (h : coerceEnum cls members v = .ok e) :
+    coerceEnum cls members e = .ok e := by
+  cases v <;> simp only [coerceEnum] at h <;> try cases h
+  · split at h
+    · cases h; simp [coerceEnum]
+    · cases h
+  · split at h
+    · rename_i hc; cases h; simp [coerceEnum, hc]
+    · cases h
+
+/-- a second pass of one enum step changes nothing -/
+theorem normEnum_idem {key cls : String} {members : List String} {d d' : Dict Val}
+    (h : normEnum key cls members d = .ok d') : normEnum key cls members d' = .ok d' := by
+  unfold normEnum at h
+  split at h
+  · rename_i v hv
+    split at h
+    · rename_i e he
+      cases h
+      have hl : (dset key e d).lookup key = some e := by rw [lookup_dset]; simp
+      unfold normEnum
+      rw [hl]; simp only [coerceEnum_idem he]
+      rw [dset_same _ _ _ hl]
+    · cases h
+  · rename_i hv
+    cases h
+    unfold normEnum; rw [hv]
+
+/-- the value under `key`, if any, is already a member of the enum class -/
+def Normed (key cls : String) (members : List String) (d : Dict Val) : Prop :=
+  ∀ v, d.lookup key = some v → coerceEnum cls members v = .ok v
+
+theorem normEnum_of_normed {key cls : String} {members : List String} {d : Dict Val} (h : Normed key cls members d) :
+    normEnum key cls members d = .ok d := by
+  unfold normEnum
+  cases hv : d.lookup key with
+  | none => rfl
+  | some v => simp only [h v hv, dset_same _ _ _ hv]
+
+theorem normed_normEnum {key cls : String} {members : List String} {d d' : Dict Val}
+    (h : normEnum key cls members d = .ok d') : Normed key cls members d' := by
+  intro v hv
+  unfold normEnum at h
+  split at h
+  · split at h
+    · rename_i e he
+      cases h
+      rw [lookup_dset] at hv; simp at hv; subst hv
+      exact coerceEnum_idem he
+    · cases h
+  · rename_i hn; cases h; rw [hn] at hv; cases hv
+
+theorem lookup_normEnum_other {key cls k : String} {members : List String} {d d' : Dict Val} (hk : k ≠ key)
+    (h : normEnum key cls members d = .ok d') : d'.lookup k = d.lookup k := by
+  unfold normEnum at h
+  split at h
+  · split at h
+    · cases h; rw [lookup_dset]; simp [hk]
+    · cases h
+  · cases h; rfl
+
+theorem lookup_dpop (k k' : String) (d : Dict α) : (dpop k' d).lookup k = if k = k' then none else d.lookup k := by
+  unfold dpop
+  have := lookup_filter_key (fun x => x != k') k d
+  rw [this]
+  by_cases h : k = k' <;> simp [h]
+
+theorem nocache_normCache {d d' : Dict Val} (h : normCache d = .ok d') : d'.lookup "cache" = none := by
+  unfold normCache at h
+  split at h
+  · split at h
+    · cases h; rw [lookup_dset, lookup_dpop]; simp
+    · cases h
+  · rename_i hn; cases h; exact hn
+
+theorem normCache_of_nocache {d : Dict Val} (h : d.lookup "cache" = none) : normCache d = .ok d := by
+  unfold normCache; rw [h]
+
+/-- `Task._validate` is idempotent on an options dict: validating an already validated dict changes nothing
+(so a pickle round trip, which re-validates, keeps the call-time options exactly). -/
+theorem normalize_idem {d d' : Dict Val} (h : normalize d = .ok d') : normalize d' = .ok d' := by
+  unfold normalize at h
+  obtain ⟨d2, h2, h3⟩ := bind_ok h
+  obtain ⟨d1, h1, h2⟩ := bind_ok h2
+  have c1 := nocache_normCache h1
+  have c' : d'.lookup "cache" = none := by
+    rw [lookup_normEnum_other (by decide) h3, lookup_normEnum_other (by decide) h2]; exact c1
+  have s' : Normed "cache_scope" "CacheScope" scopeMembers d' := by
+    intro v hv
+    rw [lookup_normEnum_other (by decide) h3] at hv
+    exact normed_normEnum h2 v hv
+  have v' := normed_normEnum h3
+  unfold normalize
+  rw [normCache_of_nocache c']
+  show (normEnum "cache_scope" "CacheScope" scopeMembers d' >>= _) = _
+  rw [normEnum_of_normed s']
+  exact normEnum_of_normed v'
 
 end RedunModel.Options
